@@ -499,10 +499,10 @@ func run(r *ev.Run) {
 // spelling is the control: if even that one is not loaded within the budget, inotify does not
 // work here and nothing is concluded; otherwise a spelling whose update is never loaded (two
 // attempts of 15 s each, against milliseconds for the control) is a violation.
-var spellings = []string{"clean", "dot-segment", "double-slash", "dot-dot", "relative", "symlink-other-dir"}
+var spellings = []string{"clean", "dot-segment", "double-slash", "dot-dot", "relative", "symlink-other-dir", "clean+atomic-replace"}
 
 func spellingRuns(r *ev.Run) {
-	r.Rule("Binding runs with the real watcher, one process per spelling of the configured path {clean, dir/./f, dir//f, dir/sub/../f, ./f relative to the working directory, symlink into another directory}: a well-formed rewrite is loaded (control-calibrated: verdicts only when the clean spelling loads).")
+	r.Rule("Binding runs with the real watcher, one process per spelling of the configured path {clean, dir/./f, dir//f, dir/sub/../f, ./f relative to the working directory, symlink into another directory} and, for the clean spelling, an atomic replacement (temporary file renamed over the lease file): a well-formed update is loaded (control-calibrated: verdicts only when the clean spelling loads).")
 	got := map[string]string{}
 	var mu sync.Mutex
 	var wg sync.WaitGroup
@@ -587,7 +587,28 @@ func spellingWorker(r *ev.Run, sp string) {
 		dl := time.Now().Add(15 * time.Second)
 		for time.Now().Before(dl) {
 			if served(goodTables[4]["good2"]) {
-				fmt.Println("@@SPELLING loaded")
+				if sp != "clean+atomic-replace" {
+					fmt.Println("@@SPELLING loaded")
+					return
+				}
+				// the way editors and configuration management install a file: write a
+				// temporary file, rename it over the lease file (the first such replacement
+				// is seen through the watch on the old inode)
+				tmp := real + ".tmp"
+				os.WriteFile(tmp, []byte(contents[4]["good1"]), 0o644)
+				if err := os.Rename(tmp, real); err != nil {
+					fmt.Println("@@SPELLING setup-failed: " + err.Error())
+					return
+				}
+				dl2 := time.Now().Add(20 * time.Second)
+				for time.Now().Before(dl2) {
+					if served(goodTables[4]["good1"]) {
+						fmt.Println("@@SPELLING loaded")
+						return
+					}
+					time.Sleep(10 * time.Millisecond)
+				}
+				fmt.Println("@@SPELLING never-loaded")
 				return
 			}
 			time.Sleep(10 * time.Millisecond)
